@@ -87,7 +87,7 @@ func TestVReplay(t *testing.T) {
 	os.WriteFile(ovPath, ob, 0o644)
 
 	timeout := 120 * time.Second
-	args := []string{"test", "-vet=off", "-count=1", "-run", "^TestVReplay$", "-overlay", ovPath, "-timeout", "60s", "./" + rel}
+	args := []string{"test", "-v", "-vet=off", "-count=1", "-run", "^TestVReplay$", "-overlay", ovPath, "-timeout", "60s", "./" + rel}
 	cmdline := fmt.Sprintf("cd %s && VSYM_MODEL=%s VSYM_REPO=%s GOFLAGS=-mod=mod GOPROXY=off go %s", ld.repo, modelPath, ld.repo, strings.Join(args, " "))
 	os.WriteFile(filepath.Join(dir, "cmd.txt"), []byte(cmdline+"\n"), 0o644)
 	ctx, cancel := context.WithTimeout(context.Background(), timeout)
